@@ -103,6 +103,10 @@ func histories(thorough bool) []History {
 		History{"preserve all", clitree.Tree{"s.css": {Data: []byte(samples["css"]), Mode: 0o640}}, []string{"-p", "all", "-o", "s.css", "s.css"}},
 		History{"preserve none", clitree.Tree{"s.css": {Data: []byte(samples["css"]), Mode: 0o640}}, []string{"--preserve=", "-o", "s.css", "s.css"}},
 		History{"two files in place sequential", clitree.Tree{"a.css": {Data: []byte(samples["css"])}, "b.css": {Data: []byte("b { x : y }\n")}}, []string{"-v", "-o", ".", "a.css", "b.css"}},
+		// a sibling that already has the backup's name and holds something else
+		History{"in-place with a stale sibling .bak", clitree.Tree{"s.css": {Data: []byte(samples["css"])}, "s.css.bak": {Data: []byte("older { version : 1 }\n")}}, []string{"-o", "s.css", "s.css"}},
+		// fails only after the parser has rewritten part of its input in place
+		History{"in-place failing html", clitree.Tree{"bad.html": {Data: []byte("<P CLASS=x> x   y </P><SCRIPT>var a = ( 1 ;</SCRIPT>\n")}}, []string{"-o", "bad.html", "bad.html"}},
 		History{"type override in place", clitree.Tree{"data.txt": {Data: []byte(samples["json"])}}, []string{"--type", "json", "-o", "data.txt", "data.txt"}},
 	)
 	return hs
